@@ -1258,6 +1258,58 @@ def _only_err(F, crate, n, depth=2):
     return False
 
 
+def _answer_memo_reads(F, f, region, is_event):
+    """ids of the `table.get(key)` reads in `region` that stand for an engine answer (see the caller), and a note about
+    reads that do not qualify"""
+    OPERANDS = ("check_type", "extends_type")
+    lets = {}
+    for x in walk(region):
+        if x["k"] == "LetStmt" and x.get("init") is not None:
+            for b in walk(x["pat"]):
+                if b["k"] == "P.Binding":
+                    lets[b.get("lid")] = x["init"]
+
+    def deps(e, seen=None):
+        seen = seen if seen is not None else set()
+        out = set()
+        for y in walk(e):
+            if y["k"] == "Field" and y.get("name") in OPERANDS + ("true_type", "false_type"):
+                out.add(y["name"])
+            if y["k"] == "Path" and y.get("res") == "local" and y.get("lid") in lets and y["lid"] not in seen:
+                seen.add(y["lid"])
+                out |= deps(lets[y["lid"]], seen)
+        return out
+    engine_lids = {lid for lid, init in lets.items() if any(is_event(y) for y in walk(init))}
+    reads, inserts = {}, {}
+    for x in walk(region):
+        if x["k"] == "MethodCall" and x.get("recv", {}).get("k") == "Field" and x.get("args"):
+            tname = x["recv"]["name"]
+            if x["method"] in ("get", "get_mut", "contains_key", "remove"):
+                reads.setdefault(tname, []).append(x)
+            elif x["method"] == "insert" and len(x["args"]) >= 2:
+                inserts.setdefault(tname, []).append(x)
+    ok, note = set(), ""
+    for tname, rs in reads.items():
+        ins = inserts.get(tname, [])
+        filled_by_engine = bool(ins) and all(any(y["k"] == "Path" and y.get("lid") in engine_lids for y in walk(i_["args"][1])) for i_ in ins)
+        # (fills of the table outside the region are not engine answers)
+        for g2, t2 in F.hir.items():
+            if t2["body"] is region or not (F.fns.get(g2) and F.fns[g2].crate == f.crate):
+                continue
+            for y in walk(t2["body"]):
+                if y["k"] == "MethodCall" and y.get("method") == "insert" and y.get("recv", {}).get("k") == "Field" and y["recv"]["name"] == tname and y["recv"].get("adt") == rs[0]["recv"].get("adt") and g2 != f.id:
+                    filled_by_engine = False
+        for r_ in rs:
+            cover = deps(r_["args"][0])
+            keys_ok = all(set(OPERANDS) <= deps(i_["args"][0]) for i_ in ins) and set(OPERANDS) <= cover
+            if filled_by_engine and keys_ok:
+                ok.add(id(r_))
+            elif filled_by_engine:
+                note = " (the answers are memoised in `%s`, read at line %s with a key that covers %s only - not %s: two questions that differ in the uncovered operand share one answer)" % (
+                    tname, r_["line"], sorted(cover & set(OPERANDS)) or "neither operand", sorted(set(OPERANDS) - cover))
+    return ok, note
+
+
 def engine_decides_rule(F, rep, rid):
     """`Exclude<A, B>` and `A extends B ? X : Y` are DECISIONS of the semantic engine: the value the compiler returns for
     them must have passed through the engine's difference / subtype test.  A path that leaves the handling of the
@@ -1286,10 +1338,14 @@ def engine_decides_rule(F, rep, rid):
     for what, f, region, ev in regions:
         def is_event(x, ev=ev):
             return x["k"] == "MethodCall" and ((x.get("callee") or "").endswith(ev) or (x.get("resolved") or "").endswith(ev.rsplit("::", 1)[-1]) and "SemTypeOps" in (x.get("resolved") or x.get("callee") or ""))
-        hits = unpreceded_exits(F, f.crate, region, is_event, lambda e: _only_err(F, f.crate, e), owner=f.id)
+        # A memo of the engine's answers is as good as the engine - provided the table is filled with engine answers only
+        # and its key covers BOTH operands of the question (seed C05-q keyed it by the site and the checked type: the
+        # second instantiation of a generic conditional got the first one's answer).  Such a read counts as the event.
+        memo_reads, memo_note = (_answer_memo_reads(F, f, region, is_event) if what == "conditional type" else (set(), ""))
+        hits = unpreceded_exits(F, f.crate, region, lambda x, ev_=is_event: ev_(x) or id(x) in memo_reads, lambda e: _only_err(F, f.crate, e), owner=f.id)
         rep.ob(rid, "%s/%s" % (what.replace(" ", "-"), f.id.rsplit("::", 1)[-1]), not hits,
-               "the handling of %s in %s returns a value (line %s) on a path that has not consulted the semantic engine (%s): a syntactic shortcut must re-implement assignability for every pair of kinds, and any kind it does not know is silently treated as `not assignable` / `not removed`" % (
-                   what, f.id, ", ".join(str(h.get("line")) for h in hits[:4]), ev),
+               "the handling of %s in %s returns a value (line %s) on a path that has not consulted the semantic engine (%s): a syntactic shortcut must re-implement assignability for every pair of kinds, and any kind it does not know is silently treated as `not assignable` / `not removed`%s" % (
+                   what, f.id, ", ".join(str(h.get("line")) for h in hits[:4]), ev, memo_note),
                f.loc(), sample={"operator": what, "fn": f.id, "engine_call": ev, "value_exits_without_engine": len(hits)})
 
 
